@@ -15,7 +15,8 @@ RULE = (
     "a pack, under every rule database; unary equivalences as inferral/initial put verified classes inside "
     "equivalence paths; one case in seven is a 'reverse needed' scenario: a class verified with a pack (PackVerRev) "
     "that cannot expand it forwards while the class with the prefix one letter shorter is verified by enumeration, so "
-    "the expansion has to fall back on a reverse rule. Non-trivial: at least 2 classes were expanded, an expanded class "
+    "the expansion has to fall back on a reverse rule; a quarter of the other scenarios contain PackVerSome, one strategy "
+    "that verifies several classes but offers a pack for only some of them. Non-trivial: at least 2 classes were expanded, an expanded class "
     "was the end of an equivalence path, or the expansion introduced a reverse rule. Distinct = distinct canonical JSON of the scenario."
 )
 LEVEL_TEXT = (
